@@ -75,7 +75,15 @@ fn draw_dist(t: &mut Tape, c: &SymCfg, lim: u64, cursor: u64, len: u32) -> u32 {
         4 => t.range(1, lim),              // anything
         5 => cursor + t.below(len as u64 + 1), // source straddles the wrap point
         6 => lim.saturating_sub(t.below(4)),   // just inside the limit
-        _ => t.range(1, lim.min(16)),
+        _ => {
+            if t.below(2) == 0 {
+                t.range(1, lim.min(16))
+            } else {
+                // around the first distance at which source and destination no
+                // longer overlap: len-1, len, len+1
+                (len as u64 + t.below(3)).saturating_sub(1)
+            }
+        }
     };
     d.clamp(1, lim) as u32
 }
@@ -235,6 +243,8 @@ pub struct ProgStats {
     pub dst_wrap_copies: u32,
     pub max_dist: u64,
     pub len_273: u32,
+    /// longest match (273) whose source does not overlap the destination
+    pub len_273_far: u32,
     pub dist_eq_dict: u32,
     pub dist_eq_avail: u32,
     /// bit mask of (state_before) seen
@@ -273,6 +283,9 @@ impl ProgStats {
         }
         if len == 273 {
             self.len_273 += 1;
+            if dist >= 273 {
+                self.len_273_far += 1;
+            }
         }
         let avail = m.avail() as u64;
         if dist > avail.saturating_sub(self.chunk_start_avail) && self.chunk_start_avail > 0 {
